@@ -6,7 +6,7 @@
 From Coq Require Import Reals Bool List.
 From Coquelicot Require Import Coquelicot.
 From RV Require Import Base.RB Gen.GenC10Triplet Gen.GenC10Hem Gen.GenC10Merton Gen.GenC10Vg Gen.GenC10Cgmy Gen.GenC10Bs Gen.GenC10Exp
-  Gen.GenC09Hem Model.LevyClosedForms Model.LevyExponent Proofs.C10_Triplet Proofs.C10_Exponent Proofs.C10_HemLK Proofs.C10_Cgmy.
+  Gen.GenC09Hem Gen.GenC09Trunc Model.LevyClosedForms Model.LevyExponent Proofs.C10_Triplet Proofs.C10_Exponent Proofs.C10_HemLK Proofs.C10_Cgmy.
 Import ListNotations.
 Open Scope R_scope.
 
@@ -109,8 +109,9 @@ Proof. exact hem_exponent_is_LK. Qed.
        r - d - (kappa(1) - (center_drift + sigma^2/2 + Jc)); it carries no measure or integral.
    (2) CONTENT for HEM without truncation (C10_martingale_ctmc_hem): Jc is the limit of the integrals of (e^x - 1 - x) times the
        generated density, the first-moment function is the generated closed form, and the growth is r - d.
-   (3) With truncation (what the code does) the route is NOT a martingale: C10_ctmc_truncation_bias_zero / _refuted: for a model
-       declared ZERO the growth misses r - d by J0 - J0t = int_outside (e^x - 1) nu (finding F-C10-5, recorded KNOWN). *)
+   (3) With the truncation the code applies: C10_ctmc_truncation_bias_algebra (shape of the bias, free numbers) and
+       C10_ctmc_truncated_hem (HEM instance on the generated density / closed forms: growth = r - d - removed tail, strictly
+       below r - d for upward jumps only).  Other models: quadrature oracle (finding F-C10-5, recorded KNOWN). *)
 Theorem C10_ctmc_route_algebra : forall INF m1 fv a0 rep,
   (fv = true -> m1 (- INF) (- 0) + m1 0 INF = m1 (- INF) (-1) + m1 (-1) 1 + m1 1 INF) ->
   forall r d sigma (pj : R -> R) Jc mu_h,
@@ -127,7 +128,9 @@ Theorem C10_martingale_ctmc_hem : forall INF lam p eta1 eta2 r d sigma mu_h, 1 <
        (tilde_drift INF (hem_integrate_x INF lam p eta1 eta2) true (hem_a lam p eta1 eta2) (rep_code ZERO))
        (ctmc_mu_tilde INF (hem_integrate_x INF lam p eta1 eta2) true) mu_h) mu_h sigma (JcN lam p eta2 + JcP lam p eta1) = r - d.
 Proof. exact hem_ctmc_route. Qed.
-Theorem C10_ctmc_truncation_bias_zero : forall INF m1t a0 r d sigma (pj : R -> R) J0 J0t It mu_h,
+(* algebra over free numbers (J0, J0t, It are not tied to a measure here): the shape of the bias once the chain's first moments
+   are those of a truncated measure *)
+Theorem C10_ctmc_truncation_bias_algebra : forall INF m1t a0 r d sigma (pj : R -> R) J0 J0t It mu_h,
   (m1t (- INF) (- 0) + m1t 0 INF = m1t (- INF) (-1) + m1t (-1) 1 + m1t 1 INF) ->
   pj 1 = J0 -> It = m1t (- INF) (-1) + m1t (-1) 1 + m1t 1 INF ->
   ctmc_growth_exact
@@ -135,13 +138,23 @@ Theorem C10_ctmc_truncation_bias_zero : forall INF m1t a0 r d sigma (pj : R -> R
                         (ctmc_mu_tilde INF m1t true) mu_h) mu_h sigma (J0t - It)
   = r - d - (J0 - J0t).
 Proof. exact ctmc_truncation_bias_zero. Qed.
-Theorem C10_ctmc_truncation_refuted : exists INF m1t a0 r d sigma (pj : R -> R) J0t It mu_h,
-  (m1t (- INF) (- 0) + m1t 0 INF = m1t (- INF) (-1) + m1t (-1) 1 + m1t 1 INF) /\
-  It = m1t (- INF) (-1) + m1t (-1) 1 + m1t 1 INF /\ J0t < pj 1 /\
-  ctmc_growth_exact
-    (ctmc_process_drift (exp_model_drift r d (omega_of a0 sigma pj)) (tilde_drift INF m1t true a0 (rep_code ZERO))
-                        (ctmc_mu_tilde INF m1t true) mu_h) mu_h sigma (J0t - It) <> r - d.
-Proof. exact ctmc_truncation_refuted. Qed.
+(* CONTENT, HEM with the truncation the code applies (grid inside (-1,1): -1 < l < 0 < r < 1): the first-moment function is
+   truncated_integrate of the GENERATED hem_integrate_x (what TruncatedLevyMeasure.integrate_against_x computes), Jct is the
+   Riemann integral of (e^x - 1 - x) times the generated density over [l, r], and the growth rate under that exact truncated law is
+   r - d minus the exponential moment of the removed tails (closed form removed_tail); with upward jumps only it is strictly
+   below r - d: for this instance the chain route is not a martingale (finding F-C10-5). *)
+Theorem C10_ctmc_truncated_hem : forall INF lam p eta1 eta2 l r r0 d sigma mu_h,
+  1 < eta1 -> 0 < eta2 -> -1 < l < 0 -> 0 < r < 1 -> 1 < INF ->
+  let m1t := truncated_integrate (hem_integrate_x INF lam p eta1 eta2) l r in
+  let Jct := J0t lam p eta1 eta2 l r - hem_integrate_x INF lam p eta1 eta2 l r in
+  let growth := ctmc_growth_exact
+    (ctmc_process_drift (exp_model_drift r0 d (omega_of (hem_a lam p eta1 eta2) sigma (hem_pj lam p eta1 eta2)))
+                        (tilde_drift INF m1t true (hem_a lam p eta1 eta2) (rep_code ZERO)) (ctmc_mu_tilde INF m1t true) mu_h)
+    mu_h sigma Jct in
+  is_RInt (fun x => (exp x - 1 - x) * hem_nu lam p eta1 eta2 x) l r Jct /\
+  growth = r0 - d - removed_tail lam p eta1 eta2 l r /\
+  (p = 1 -> 0 < lam -> growth < r0 - d).
+Proof. exact hem_ctmc_truncated_route. Qed.
 
 (* non-vacuity: a concrete chain of conversions *)
 Example C10_nonvacuous : forall INF m1,
@@ -167,6 +180,6 @@ Print Assumptions C10_cumulants_cgmy_partial.
 Print Assumptions C10_hem_exponent.
 Print Assumptions C10_ctmc_route_algebra.
 Print Assumptions C10_martingale_ctmc_hem.
-Print Assumptions C10_ctmc_truncation_bias_zero.
-Print Assumptions C10_ctmc_truncation_refuted.
+Print Assumptions C10_ctmc_truncation_bias_algebra.
+Print Assumptions C10_ctmc_truncated_hem.
 Print Assumptions C10_nonvacuous.
